@@ -1,5 +1,5 @@
 use crate::runtime::error::state_error;
-use crate::runtime::list::{access_with_integer, access_with_symbol};
+use crate::runtime::list::{absorb_unsupported, access_with_integer, access_with_symbol};
 use crate::runtime::utilities::*;
 use garnish_lang_traits::{Extents, GarnishData, GarnishDataType, GarnishNumber, Instruction, RuntimeError, SymbolListPart, TypeConstants};
 use log::trace;
@@ -141,7 +141,7 @@ fn apply_internal<Data: GarnishData>(this: &mut Data, instruction: Instruction, 
             while let Some(part) = iter.next() {
                 match part {
                     SymbolListPart::Symbol(sym) => {
-                        match access_with_symbol(this, sym, current)? {
+                        match absorb_unsupported(access_with_symbol(this, sym, current))? {
                             None => {
                                 current = this.add_unit()?;
                                 break;
@@ -150,7 +150,7 @@ fn apply_internal<Data: GarnishData>(this: &mut Data, instruction: Instruction, 
                         }
                     },
                     SymbolListPart::Number(num) => {
-                        match access_with_integer(this, num, current)? {
+                        match absorb_unsupported(access_with_integer(this, num, current))? {
                             None => {
                                 current = this.add_unit()?;
                                 break;
